@@ -110,10 +110,9 @@ def run(ctx):
             if r.get("t") == "fail" and r.get("sig", "").startswith("l2-"):
                 ctx.oracle_fail(r["sig"], r.get("what", ""), r.get("replay"))
 
+    spam_queue()
+
     def search():
-        spam_queue()
-        if ctx.violations:
-            return
         for k in range(4):
             sequential(400, ctx.seed * 1000 + 7 + k, "s%d" % k)
             if ctx.violations:
